@@ -30,6 +30,9 @@ type runCtx struct {
 	Bin     string // plain worker binary (tag verif)
 	Workers int
 	Args    map[string]string
+	// Overlays describes the source substitutions applied to the build (perfOverlay)
+	Overlays     []string
+	OverlayFiles map[string]string
 }
 
 type evidence struct {
@@ -96,21 +99,41 @@ func goEnv() []string {
 	return e
 }
 
-// perfOverlay returns go build -overlay arguments that neutralise the
-// debug.FreeOSMemory() call in keystore/snacl (a forced GC + scavenge after every key
-// derivation, which dominates the cost of thousands of short-lived instances and has
-// no observable semantics). The replacement file is generated from the CURRENT tree; if
-// the call is not found the tree is built unchanged.
+// perfOverlay returns go build -overlay arguments for two source substitutions generated
+// from the CURRENT tree (if a pattern is not found that file is built unchanged and the
+// fact is recorded in the evidence under coverage.build_overlays):
+//
+//  1. keystore/snacl: the debug.FreeOSMemory() call (a forced GC + scavenge after every key
+//     derivation, which dominates the cost of thousands of short-lived instances and has no
+//     observable semantics) is neutralised;
+//  2. txmgr/utxostore.go removeRelevantCredit: the number of credits one removal round
+//     deletes, the literal 20000, is scaled to 2 - like the consensus constants - so that
+//     removals of small wallets take several rounds and the commits between rounds become
+//     crash points / restart points (C06, C08, C18, C20).
 func perfOverlay(c *runCtx) []string {
-	src := "/repo/masswallet/keystore/snacl/snacl.go"
-	b, err := os.ReadFile(src)
-	if err != nil || !strings.Contains(string(b), "\tdebug.FreeOSMemory()\n") {
+	type sub struct{ file, old, new, what string }
+	subs := []sub{
+		{"/repo/masswallet/keystore/snacl/snacl.go", "\tdebug.FreeOSMemory()\n", "\t_ = debug.FreeOSMemory\n", "snacl: FreeOSMemory neutralised"},
+		{"/repo/masswallet/txmgr/utxostore.go", "count >= 20000", "count >= 2", "utxostore: credits per removal round scaled 20000 -> 2"},
+	}
+	repl := map[string]string{}
+	c.Overlays = nil
+	for i, sb := range subs {
+		b, err := os.ReadFile(sb.file)
+		if err != nil || strings.Count(string(b), sb.old) != 1 {
+			c.Overlays = append(c.Overlays, sb.what+": NOT APPLIED (pattern not found in the current tree)")
+			continue
+		}
+		dst := filepath.Join(c.Scratch, fmt.Sprintf("overlay_%d.go", i))
+		os.WriteFile(dst, []byte(strings.Replace(string(b), sb.old, sb.new, 1)), 0o644)
+		repl[sb.file] = dst
+		c.Overlays = append(c.Overlays, sb.what)
+	}
+	if len(repl) == 0 {
 		return nil
 	}
-	dst := filepath.Join(c.Scratch, "overlay_snacl.go")
-	os.WriteFile(dst, []byte(strings.Replace(string(b), "\tdebug.FreeOSMemory()\n", "\t_ = debug.FreeOSMemory\n", 1)), 0o644)
-	ov := map[string]interface{}{"Replace": map[string]string{src: dst}}
-	ob, _ := json.Marshal(ov)
+	c.OverlayFiles = repl
+	ob, _ := json.Marshal(map[string]interface{}{"Replace": repl})
 	op := filepath.Join(c.Scratch, "overlay_perf.json")
 	os.WriteFile(op, ob, 0o644)
 	return []string{"-overlay", op}
@@ -250,6 +273,7 @@ func main() {
 			fmt.Printf("KNOWN-FINDING: property=%s %s [%s] (%d counterexamples this run)\n", c.ID, open[t].What, t, knownSeen[t])
 		}
 		cov["known_findings_matched"] = knownSeen
+		cov["build_overlays"] = c.Overlays
 		ev := evidence{PropertyID: c.ID, Tier: c.Tier, Seed: c.Seed, Level: def.Level, Coverage: cov,
 			Assumptions: assumptions, WallS: time.Since(t1).Seconds(), Violations: len(fresh)}
 		os.MkdirAll(filepath.Join(c.Root, "evidence"), 0o755)
